@@ -113,6 +113,7 @@ var menus = map[string]string{
 	"MALL": "PC PP0 VC NV NVF NVW NVH NVB XT OUT",
 	"MN":   "PC NVN PP0",
 	"MZ":   "PC PP0 NV NVM NVB VC",
+	"MNC":  "PC PP0 NC", // + the adversary's own messages signed over a non-canonical encoding of the header
 	"ME":   "NVE",
 	"MB":   "PC NVB", // NEW_VIEWs of a Byzantine leader, genuine in every signed part, with and without a substituted block body
 	"MZE":  "PC PP0 NV NVE VC", // + NEW_VIEW / vote locked on an empty-hash proof forged from proof-less VIEW_CHANGE signatures
@@ -219,6 +220,9 @@ func plan(prop, tier string) []run {
 		add("K6", "M7", 0, mul*10*time.Second)
 		add("K3b@v4a", "M1", 0, mul*20*time.Second) // two correct members of weights 3,4 (both needed), views up to 4: exhaustive (~2.6e5 states)
 		add("K3b@v2", "M3", 0, mul*10*time.Second)  // every vote variant of two Byzantine members for the correct leader of view 2: exhaustive
+		add("K1@v1a", "MNC", 0, mul*10*time.Second)  // the adversary's own messages signed over non-canonical header encodings: exhaustive
+		add("K3b@v1", "MNC", 0, mul*10*time.Second)  // the same with two Byzantine members, weighted: exhaustive
+		add("K2@v1a", "MNC", 0, mul*25*time.Second)  // the same from the proposer of view 0 (PREPREPARE, votes to the correct leader of view 1): exhaustive
 		add("K1@v1a", "MB", 0, mul*25*time.Second)  // Byzantine leader of view 1 substitutes the (unsigned) block body of its NEW_VIEW: exhaustive
 		add("K3b@v4a", "ME", 0, mul*20*time.Second) // two Byzantine leaders, views up to 4: NEW_VIEW / vote locked on an empty-hash proof forged from VIEW_CHANGE signatures: exhaustive
 	}
